@@ -155,6 +155,8 @@ pub fn call(name: &str, args: &[V]) -> R {
             V::Char(c) => R::Ok(V::Str(c.to_string())),
             // documented kinds whose textual form the docs do not pin: must succeed with *a* string
             V::Float(_) | V::Byte(_) | V::Arr(_) | V::Map(_) => R::Unspecified("str: documented kind, textual form not pinned (must return a string)"),
+            // the documentation is silent about error objects; rendering them is not treated as a fault
+            V::ErrObj => R::Unspecified("str of an error object"),
             _ => R::Err,
         },
         "int" => match a0 {
